@@ -36,6 +36,54 @@ fn exec_line(lhs: &str) -> String {
     }
 }
 
+/// Watchdog: every case is executed on a worker thread; if it does not come back within the limit the
+/// observation is `timeout` (a hang is an observation, like a panic), the stuck thread is abandoned and a
+/// fresh worker takes over.  After a few hangs the process gives up (the abandoned threads keep spinning).
+struct Runner {
+    tx: std::sync::mpsc::Sender<String>,
+    rx: std::sync::mpsc::Receiver<String>,
+}
+
+fn spawn_runner() -> Runner {
+    let (tx, rx_case) = std::sync::mpsc::channel::<String>();
+    let (tx_res, rx) = std::sync::mpsc::channel::<String>();
+    std::thread::Builder::new()
+        .stack_size(64 << 20)
+        .spawn(move || {
+            for lhs in rx_case {
+                let r = exec_line(&lhs);
+                if tx_res.send(r).is_err() {
+                    break;
+                }
+            }
+        })
+        .expect("spawn worker");
+    Runner { tx, rx }
+}
+
+const CASE_LIMIT_SECS: u64 = 20;
+const MAX_HANGS: u32 = 3;
+
+fn exec_guarded(runner: &mut Runner, lhs: &str, hangs: &mut u32) -> String {
+    if runner.tx.send(lhs.to_string()).is_err() {
+        *runner = spawn_runner();
+        return "panic".to_string();
+    }
+    match runner.rx.recv_timeout(std::time::Duration::from_secs(CASE_LIMIT_SECS)) {
+        Ok(s) => s,
+        Err(std::sync::mpsc::RecvTimeoutError::Timeout) => {
+            *hangs += 1;
+            *runner = spawn_runner();
+            "timeout".to_string()
+        }
+        Err(std::sync::mpsc::RecvTimeoutError::Disconnected) => {
+            // the worker died (a panic that escaped catch_unwind, e.g. a panic while panicking)
+            *runner = spawn_runner();
+            "panic".to_string()
+        }
+    }
+}
+
 fn gen(fam: &str, seed: u64, count: usize, thorough: bool, part: u64, parts: u64) -> Vec<String> {
     let mut rng = Rng::new(seed);
     let mut out = vec![];
@@ -68,16 +116,27 @@ fn main() {
             let part: u64 = args.get(6).and_then(|s| s.parse().ok()).unwrap_or(0);
             let parts: u64 = args.get(7).and_then(|s| s.parse().ok()).unwrap_or(1);
             let lines = gen(fam, seed, count, thorough, part, parts);
+            let mut runner = spawn_runner();
+            let mut hangs = 0u32;
             for l in lines {
                 if args[1] == "gen" {
                     writeln!(w, "{l}").unwrap();
                 } else {
-                    let obs = exec_line(&l);
+                    let obs = exec_guarded(&mut runner, &l, &mut hangs);
                     writeln!(w, "{l} => {obs}").unwrap();
+                    if hangs >= MAX_HANGS {
+                        w.flush().unwrap();
+                        eprintln!("giving up after {hangs} hanging cases");
+                        std::process::exit(3);
+                    }
                 }
             }
+            w.flush().unwrap();
+            std::process::exit(0);
         }
         Some("exec") => {
+            let mut runner = spawn_runner();
+            let mut hangs = 0u32;
             let stdin = std::io::stdin();
             for line in stdin.lock().lines() {
                 let line = line.unwrap();
@@ -89,9 +148,17 @@ fn main() {
                 if lhs.is_empty() || lhs.starts_with('#') {
                     continue;
                 }
-                let obs = exec_line(lhs);
+                let obs = exec_guarded(&mut runner, lhs, &mut hangs);
                 writeln!(w, "{lhs} => {obs}").unwrap();
+                if hangs >= MAX_HANGS {
+                    w.flush().unwrap();
+                    eprintln!("giving up after {hangs} hanging cases");
+                    std::process::exit(3);
+                }
             }
+            w.flush().unwrap();
+            // abandoned (spinning) worker threads must not keep the process alive
+            std::process::exit(0);
         }
         _ => {
             eprintln!("usage: stunharness gen|run <family> <seed> <count> <tier> | exec");
